@@ -100,6 +100,12 @@ int c_ensrank(double eps, int nval, int ncol, double* sim, \
                 diff = fabs(value-valueprev);
                 diffnext = fabs(value-valuenext);
 
+                /* The first value always starts a sequence and the last
+                 * value always ends one. This cannot rely on the sentinels
+                 * value+1 : for large magnitudes value+1 == value */
+                if(j==0) diff = eps;
+                if(j==2*ncol-1) diffnext = eps;
+
                 /* Start a tie sequence */
                 if(index<ncol && diff>=eps)
                 {
